@@ -107,7 +107,9 @@ func (cp *CertificatePoliciesData) MarshalJSON() ([]byte, error) {
 			uNoticeData := UserNoticeData{}
 			uNoticeData.ExplicitText = explicit_text
 			noticeRef := NoticeReference{}
-			if len(cp.NoticeRefOrganization[idx]) > 0 {
+			// Notice references are only recorded for the user notices that
+			// carry one, so there can be fewer of them than explicit texts.
+			if idx2 < len(cp.NoticeRefOrganization[idx]) && idx2 < len(cp.NoticeRefNumbers[idx]) {
 				organization := cp.NoticeRefOrganization[idx][idx2]
 				noticeRef.Organization = organization
 				noticeRef.NoticeNumbers = cp.NoticeRefNumbers[idx][idx2]
